@@ -266,7 +266,11 @@ func Check(res *Result) *ReadBack {
 		last := nums[len(nums)-1]
 		for _, n := range nums {
 			d1, d2 := int64(n)%10000, int64(last)-int64(n)
-			if n < 40 || n%101 == 0 || d1 < 15 || d1 > 9985 || d2 < 60 {
+			isStream := false
+			if w, ok := want[pdf.NewReference(n, gens[n])]; ok && w.IsStream {
+				isStream = true // every stream is looked at (C03 takes its decoding oracle from here)
+			}
+			if n < 40 || n%101 == 0 || d1 < 15 || d1 > 9985 || d2 < 60 || isStream {
 				thin = append(thin, n)
 			}
 		}
